@@ -199,5 +199,8 @@ def short(key):
         return '?'
     parts = [p.strip() for p in key.split(' :: ')]
     if len(parts) >= 2:
-        return os.path.basename(parts[0]).replace('.rs', '') + '::' + '::'.join(parts[1:])
+        # files of crates other than frost-core carry the crate directory (`frost-rerandomized/lib::aggregate` vs `lib::aggregate`)
+        crate = parts[0].split('/')[0]
+        pre = '' if crate in ('frost-core', parts[0]) else crate + '/'
+        return pre + os.path.basename(parts[0]).replace('.rs', '') + '::' + '::'.join(parts[1:])
     return key
